@@ -68,6 +68,59 @@ def interleave_case(rng, ch, f, segments):
     return lines
 
 
+def sweep_case(nr10, f, nclk):
+    """channel 1 playing with an ACTIVE sweep unit; duty position after every clock across several write-backs"""
+    return [w(NR12, 0xF0), w(NR10, nr10), w(NR13, f & 0xFF), w(NR14, 0x80 | (f >> 8)), cyc(1), 'apu.clk %d 1' % nclk,
+            'apu.st']
+
+
+def sweep_duty_changes(nr10, f, nclk):
+    """documented behaviour from a fresh APU: the duty timer is reloaded with 4*(2048-f) only when a step ends, with
+    the frequency in force at that moment; the sweep unit writes the frequency back on its own clock (sequencer steps
+    2 and 6, a step every 8192 clocks) without touching the running duty timer.  Returns [(clock, duty index)]"""
+    period, negate, shift = (nr10 >> 4) & 7, nr10 & 8, nr10 & 7
+
+    def calc(x):
+        return x - (x >> shift) if negate else x + (x >> shift)
+    timer = 4 * (2048 - f)
+    idx = 0
+    shadow = f
+    sw_timer = period or 8
+    sw_on = bool(period or shift)
+    out = [(0, 0)]
+    g = 4                                    # the trigger's machine cycle: four clocks without a timer tick
+    for k in range(1, nclk + 1):
+        g += 1
+        if timer == 0:
+            timer = 4 * (2048 - f)
+            idx = (idx + 1) % 8
+            out.append((k, idx))
+        timer -= 1
+        if g % 8192 == 0 and (g // 8192 - 1) % 4 == 2 and sw_on:
+            sw_timer -= 1
+            if sw_timer == 0:
+                sw_timer = period or 8
+                if period:
+                    nf = calc(shadow)
+                    if nf <= 2047 and shift:
+                        f = shadow = nf
+    return out
+
+
+def check_sweep(cid, impl):
+    _, a, b, n = cid.split('_')
+    nr10, f, nclk = int(a, 16), int(b, 16), int(n)
+    got = [(k, v[0]) for k, v in parse_clk([l for l in impl if l.startswith('t ')][0])]
+    want = sweep_duty_changes(nr10, f, nclk)
+    if got != want:
+        for x, y in zip(got, want):
+            if x != y:
+                return ('channel 1 with NR10=%02X from f=%03X: duty step (clock, index) %s, documented %s (a step lasts '
+                        '4*(2048-f) clocks with the f in force when it started)' % (nr10, f, x, y))
+        return 'channel 1 with NR10=%02X from f=%03X: %d duty steps, documented %d' % (nr10, f, len(got) - 1, len(want) - 1)
+    return None
+
+
 def noise_case(v, run_clocks):
     lines = [w(NR42, 0xF0), w(NR43, v), w(NR44, 0x80), cyc(1), 'apu.clk 1 16']
     if run_clocks:
@@ -106,6 +159,13 @@ def generate(rng, tier):
         f = rng.choice([0x700, 0x7C0, 0x7FF, 0x7F0, 0x600, rng.randrange(0x600, 0x800)])
         cases.append(('I%d_%d_%d' % (ch, f, k), interleave_case(rng, ch, f, rng.randrange(4, 12))))
         nint += 1
+    # channel 1 with an active sweep (subtraction, or small additions that do not overflow for a while)
+    sweeps = [(0x19, 0x400), (0x1A, 0x700), (0x29, 0x555), (0x17, 0x100), (0x15, 0x300), (0x1F, 0x7FF)]
+    if tier != 'quick':
+        sweeps += [(p << 4 | n << 3 | sh, f) for p in (1, 2, 3) for n in (0, 1) for sh in (1, 2, 4, 7) for f in (0x080, 0x400, 0x6F0)]
+    for nr10, f in sweeps:
+        nclk = 32768 * ((nr10 >> 4) & 7) * 4 + 9000
+        cases.append(('S_%02X_%03X_%d' % (nr10, f, nclk), sweep_case(nr10, f, nclk)))
     nnoise = 0
     for v in range(256):
         if (v >> 4) > 13:
@@ -256,6 +316,8 @@ def extra(check, impl_cases, model_cases, cases):
             msg = check_tone(int(cid[1:]), impl[1])
         elif cid[0] == 'R' and cid[1:].isdigit():
             msg = check_rev(int(cid[1:]), impl[1])
+        elif cid.startswith('S_'):
+            msg = check_sweep(cid, impl)
         elif cid[0] == 'I':
             msg = check_interleave(cid, lines, impl)
         elif cid[0] == 'n':
